@@ -1,6 +1,6 @@
 /-! Environment model of Go `regexp` (RE2 semantics, leftmost-first) on a byte-level regex subset:
 literal bytes, classes, `.` (any byte but `\n`), sequence, alternation, greedy `* + ?`,
-capturing groups.  Executable backtracking matcher in continuation-passing style with fuel.
+capturing groups, the anchors `^` and `$`.  Executable backtracking matcher in continuation-passing style with fuel.
 Used by the driver only; theorems are parametric in a matcher.  Inputs are ASCII (or single
 invalid bytes): multi-byte runes are outside the model. -/
 namespace Regex
@@ -16,6 +16,8 @@ inductive Re where
   | plus (r : Re)
   | opt (r : Re)
   | grp (idx : Nat) (r : Re)
+  | bol          -- `^` (no multi-line mode)
+  | eol          -- `$`
   deriving Repr, Inhabited
 
 abbrev Caps := List (Nat × Nat × Nat)   -- (group, start, end), most recent first
@@ -47,6 +49,8 @@ def m : Nat → Re → Nat → List Nat → Caps → (Nat → List Nat → Caps 
       | some c => some c
       | none => k pos s caps
     | .grp i r1 => m fuel r1 pos s caps (fun p s' c => k p s' ((i, pos, p) :: c))
+    | .bol => if pos = 0 then k pos s caps else none
+    | .eol => if s.isEmpty then k pos s caps else none
 
 def size : Re → Nat
   | .seq a b | .alt a b => size a + size b + 1
